@@ -26,7 +26,7 @@ ASSUMPTIONS = [
     "digit-exactness of builtins.repr(float), black formatting and string quoting are not decided",
     "classes wrapping callables (NormLambda, HedgeLambda) are not representable by design",
 ]
-FLOORS = {"R11": 11, "R12": 1, "R1": 60, "R2": 9, "R5": 4, "R6": 3, "R7": 16, "R8": 1, "R9": 3, "T10": 4}
+FLOORS = {"H7": 4, "R11": 11, "R12": 1, "R1": 60, "R2": 9, "R5": 4, "R6": 3, "R7": 16, "R8": 1, "R9": 3, "T10": 4}
 
 NOT_REPRESENTABLE = {"NormLambda": "wraps a Python callable", "HedgeLambda": "wraps a Python callable"}
 DIRECTIVES = {("Engine", "load"), ("Function", "load"), ("Linear", "engine"), ("Function", "engine")}
@@ -156,6 +156,9 @@ def run(check: Check) -> None:
     exports(check)
     python_exporter(check)
     repr_limits(check)
+    from .c13 import engine_init
+
+    engine_init(check)  # the representation rebuilds the engine through Engine(...): its terms must be re-pointed to the new engine
     if check.tier == "thorough":
         example_signatures(check)
     check.exhaustive_parts += ["constructor parameter x emitted field table for every class with a constructor"]
